@@ -462,15 +462,51 @@ def items_loop_vars(loop_ast: ast.For):
 
 
 def r36(e: Engine, rep: Report, rule: str):
-    ctx = e.method_ctx(QUEUE, '_handle_partial_relay')
-    fn = ctx.func.node
+    from .c01 import partial_graph, settled_paths
+    ctx, g = partial_graph(e)
     where = ctx.func.qname
-    env = ctx.func.params[2] if len(ctx.func.params) > 2 else 'envelope'
+    settled = settled_paths(e, g)
+    # the function that fills the settled set (the root, or the helper the
+    # classification was moved into)
+    fill = [n for n in g.nodes if n.kind == 'call' and
+            isinstance(n.ast.func, ast.Attribute) and
+            n.ast.func.attr in ('add', 'append') and n.ast.args and (
+                path_of(n.ast.func.value, n.frame) in settled or
+                (not settled and 'deliver' in ast.unparse(n.ast.func.value)))]
+    if not fill:
+        rep.error('anchor vanished: settled-position sites in '
+                  '_handle_partial_relay')
+        return
+    ffr = fill[0].frame
+    fn = ffr.ctx.func.node
+    # the envelope as this function knows it
+    env = None
+    for prm in ffr.ctx.func.params:
+        if prm in ('envelope', 'env'):
+            env = prm
+    if env is None:
+        env = ctx.func.params[2] if len(ctx.func.params) > 2 else 'envelope'
     src = env + '.recipients'
 
     def from_recipients(x: ast.AST, seen=()) -> bool:
         if any(ast.unparse(y) == src for y in ast.walk(x)):
             return True
+        # a bound method / alias of the list: `index_of = env.recipients.index`
+        if isinstance(x, ast.Call) and isinstance(x.func, ast.Name) and \
+                x.func.id not in seen:
+            fdefs = [n.value for n in walk_own(fn)
+                     if isinstance(n, ast.Assign) and any(
+                         isinstance(t, ast.Name) and t.id == x.func.id
+                         for t in n.targets)]
+            if fdefs and all(from_recipients(d, seen + (x.func.id,))
+                             for d in fdefs):
+                return True
+        if isinstance(x, ast.Call) and isinstance(x.func, ast.Attribute) and \
+                isinstance(x.func.value, ast.Name) and \
+                x.func.value.id not in seen:
+            # recipients.index(rcpt) with `recipients = envelope.recipients`
+            if from_recipients(x.func.value, seen):
+                return True
         if isinstance(x, ast.Name) and x.id not in seen:
             defs = []
             for n in walk_own(fn):
@@ -494,10 +530,9 @@ def r36(e: Engine, rep: Report, rule: str):
                 from_recipients(d, seen + (x.id,)) for d in defs)
         return False
     sites = 0
+    fill_asts = {id(x.ast) for x in fill}
     for n in walk_own(fn):
-        if isinstance(n, ast.Call) and isinstance(n.func, ast.Attribute) \
-                and n.func.attr in ('add', 'append') and \
-                'deliver' in ast.unparse(n.func.value) and n.args:
+        if isinstance(n, ast.Call) and id(n) in fill_asts:
             sites += 1
             rep.evaluations += 1
             rep.check(from_recipients(n.args[0]), rule, where,
@@ -508,7 +543,7 @@ def r36(e: Engine, rep: Report, rule: str):
                       'in another order than the envelope lists them makes '
                       'the queue mark the wrong recipients (a settled one is '
                       'attempted again, an unsettled one is dropped)' % src,
-                      loc=ctx.func.loc(n),
+                      loc=ffr.ctx.func.loc(n),
                       reason='derived from ' + src)
     if sites < 1:
         rep.error('anchor vanished: settled-position sites in '
